@@ -182,6 +182,7 @@ fn validate_type_arguments(
   cx: &mut TypingContext,
   type_params: &Vec<TypeParameterSignature>,
   subst_map: &HashMap<PStr, Arc<Type>>,
+  use_loc: Location,
 ) {
   for type_param in type_params {
     if let (Some(bound), Some(solved_type_argument)) =
@@ -191,8 +192,16 @@ fn validate_type_arguments(
       if !solved_type_argument.is_the_same_type(&substituted_bound)
         && !cx.is_subtype(solved_type_argument, &substituted_bound)
       {
+        // A solved type argument can come out of a type written in another module:
+        // the violation is then reported where the type parameter is instantiated.
+        let solved_loc = solved_type_argument.get_reason().use_loc;
+        let loc = if solved_loc.module_reference == cx.current_module_reference {
+          solved_loc
+        } else {
+          use_loc
+        };
         cx.error_set.report_incompatible_subtype_error(
-          solved_type_argument.get_reason().use_loc,
+          loc,
           solved_type_argument.to_description(),
           substituted_bound.to_description(),
         );
@@ -421,7 +430,12 @@ fn check_member_with_unresolved_tparams(
         for (tparam, targ) in method_type_info.type_parameters.iter().zip(explicit_type_arguments) {
           subst_map.insert(tparam.name, Arc::new(Type::from_annotation(targ)));
         }
-        validate_type_arguments(cx, &method_type_info.type_parameters, &subst_map);
+        validate_type_arguments(
+          cx,
+          &method_type_info.type_parameters,
+          &subst_map,
+          expression.common.loc,
+        );
         let type_ =
           Arc::new(Type::Fn(type_system::subst_fn_type(&method_type_info.type_, &subst_map)));
         let inferred_type_arguments =
@@ -695,7 +709,12 @@ fn check_function_call_implicit_instantiation(
 
   let fully_solved_concrete_return_type =
     fully_solved_generic_type.return_type.reposition(function_call_reason.use_loc);
-  validate_type_arguments(cx, type_parameters, &fully_solved_substitution);
+  validate_type_arguments(
+    cx,
+    type_parameters,
+    &fully_solved_substitution,
+    function_call_reason.use_loc,
+  );
   for ((l, arg_t), param_t) in checked_arguments
     .iter()
     .map(|e| (e.loc(), e.type_()))
